@@ -137,18 +137,21 @@ Inductive site :=
 | SRelurl (page target : list str)          (* {{ x | relurl(page_url) }}, x linking to out/<target> *)
 | SDocLink (ctx view target : list str)     (* [[ref]] in the docstring of the entity with URL path ctx, shown on view *)
 | SPageLink (page target : list str)        (* [[ref]] or |url|/|page|/|media| link in the static page [page] *)
-| SGraphNode (view target : list str)       (* URL of a graph node; graph embedded in view *)
+| SGraphNode (view target : list str)       (* URL of a graph node (xlink:href in the SVG); graph embedded in view *)
+| SGraphTable (view target : list str)      (* the same node URL as <a href> in a graph drawn as an HTML table
+                                               (FortranGraph._make_graph_as_table, first hop > graph_maxnodes) *)
 | SSearch (target : list str).              (* "url" of a search-index entry, followed from search.html *)
 
 Definition site_view (st : site) : list str :=
   match st with
   | SProjectUrl p _ | SRelurl p _ | SPageLink p _ => p
-  | SDocLink _ v _ | SGraphNode v _ => v
+  | SDocLink _ v _ | SGraphNode v _ | SGraphTable v _ => v
   | SSearch _ => [s "search.html"]
   end.
 Definition site_target (st : site) : list str :=
   match st with
-  | SProjectUrl _ t | SRelurl _ t | SPageLink _ t | SDocLink _ _ t | SGraphNode _ t | SSearch t => t
+  | SProjectUrl _ t | SRelurl _ t | SPageLink _ t | SDocLink _ _ t | SGraphNode _ t | SGraphTable _ t
+  | SSearch t => t
   end.
 
 (* the relative reference written in relative mode (settings.project_url = output directory) *)
@@ -158,7 +161,7 @@ Definition site_rel (out : list str) (st : site) : list str :=
   | SRelurl page target => relpath (out ++ target) (out ++ parent page)
   | SDocLink ctx _ target => doc_link out ctx target
   | SPageLink page target => relpath (out ++ target) (out ++ parent page)
-  | SGraphNode _ target => dotdot :: target
+  | SGraphNode _ target | SGraphTable _ target => dotdot :: target
   | SSearch target => target
   end.
 
@@ -166,7 +169,7 @@ Definition site_rel (out : list str) (st : site) : list str :=
 Definition site_url (relative : bool) (setting : str) (out : list str) (st : site) : str :=
   match st with
   | SProjectUrl page target => page_project_url relative setting out page ++ slash :: render_rel target
-  | SGraphNode _ target => (if relative then s "../" else []) ++ render_rel target
+  | SGraphNode _ target | SGraphTable _ target => (if relative then s "../" else []) ++ render_rel target
   | SSearch target => (if relative then [] else setting) ++ render_rel target
   | _ => if relative then render_rel (site_rel out st) else setting ++ slash :: render_rel (site_target st)
   end.
@@ -185,6 +188,6 @@ Definition site_depth_ok (st : site) : bool :=
   | SDocLink ctx view target =>
       (length ctx <=? 2) && (length view =? 2) &&
       negb (match target with d :: _ => str_eqb d ghost | [] => false end)
-  | SGraphNode view _ => length view =? 2
+  | SGraphNode view _ | SGraphTable view _ => length view =? 2
   | _ => true
   end.
